@@ -11,7 +11,7 @@ Sub-protocol `C11` (also the base of `C12`): the pulse generator under step sche
   adjudicate <stop|-> <time:level> …   the same verdict for an edge list observed on the real code
 Schedules (both sides implement them identically; SplitMix64 as in harness/src/util.rs):
   kind 0 uniform 1..16 · 1 constant (seed mod 16)+1 · 2 mostly 1..4, sometimes 16 · 3 alternating 16,1
-  · 4 instruction-like {3,4,4,4,5,6,7,8,3,1}
+  · 4 instruction-like {3,4,4,4,5,6,7,8,3,1} · 5 constant `seed` T (coarse advance, used by C12 only)
 -/
 namespace Driver.C11
 open ZxVerif.Tape
@@ -33,6 +33,7 @@ def instrTable : Array Nat := #[3, 4, 4, 4, 5, 6, 7, 8, 3, 1]
 /-- step number `i` of schedule `kind` -/
 def nextStep (kind : Nat) (seed : Nat) (i : Nat) (r : Rng) : Nat × Rng :=
   match kind with
+  | 5 => (seed, r)
   | 1 => (seed % 16 + 1, r)
   | 3 => (if i % 2 = 0 then 16 else 1, r)
   | 2 => let (x, r) := r.next
